@@ -224,6 +224,9 @@ func (s *supplied) snap() snapshot {
 		out.astTokens = sha([]byte(tokenDump(s.res.AST())))
 		out.protoBytes = vhlib.Hx(detMarshal(s.res.FileDescriptorProto()))
 		out.nodeIndex = sha([]byte(nodeIndexDump(s.res)))
+	case "result_noast":
+		// a parser.Result that wraps a descriptor proto and has no AST (parser.ResultWithoutAST)
+		out.protoBytes = vhlib.Hx(detMarshal(s.res.FileDescriptorProto()))
 	case "proto", "proto_si":
 		out.protoBytes = vhlib.Hx(detMarshal(s.proto))
 	}
@@ -329,6 +332,11 @@ func formsCase(in map[string]any) map[string]any {
 					return map[string]any{"prep_err": "result: " + errClass(err)}
 				}
 				s.res = r
+				if s.form == "result_noast" {
+					// the unlinked descriptor (relative type names, uninterpreted options) without its AST
+					s.res = parser.ResultWithoutAST(proto.Clone(r.FileDescriptorProto()).(*descriptorpb.FileDescriptorProto))
+					s.astN = nil
+				}
 				if s.form == "proto" || s.form == "proto_si" {
 					s.proto = r.FileDescriptorProto()
 					if s.form == "proto_si" {
@@ -359,7 +367,7 @@ func formsCase(in map[string]any) map[string]any {
 			return protocompile.SearchResult{Source: strings.NewReader(s.text)}, nil
 		case "ast":
 			return protocompile.SearchResult{AST: s.astN}, nil
-		case "result":
+		case "result", "result_noast":
 			return protocompile.SearchResult{ParseResult: s.res}, nil
 		default:
 			return protocompile.SearchResult{Proto: s.proto}, nil
